@@ -116,4 +116,19 @@ def protected(F):
             out.add(m)
     out |= digest_renderers(F)
     out |= atomic_publishers(F)
+    out |= byte_decoders(F)
+    return out
+
+
+def byte_decoders(F):
+    """functions that turn one byte into a value of a crate enum (u8 -> Result/Option<Enum>) by a table: the C20 rules read the
+    table in the function and treat a call of it as `decoded from this byte`"""
+    out = set()
+    for p_, b_ in F.bodies.items():
+        if b_.kind != 'fn' or b_.argc != 1 or b_.local_ty(1) != 'u8':
+            continue
+        rt = b_.local_ty(0)
+        if rt.startswith(('std::result::Result<', 'std::option::Option<')) and not rt.split('<', 1)[1].startswith(('std::', 'core::', 'u', 'i', '&', '(', '[')):
+            if any(blk['term']['k'] == 'switch' and len(blk['term']['targets']) >= 3 for blk in b_.blocks):
+                out.add(p_)
     return out
